@@ -318,7 +318,8 @@ def run_plan(modname, plan, base, tier, deadline_s=None, chunk=None):
     workers = n_workers()
     jobs = []
     for engine, n in plan:
-        seeds = [run_seed(base, engine, k) for k in range(n)]
+        # engines named *_enum enumerate a finite space: they get the index itself, not a derived seed
+        seeds = list(range(n)) if engine.endswith('_enum') else [run_seed(base, engine, k) for k in range(n)]
         c = chunk or max(1, min(2000, (n + workers * 4 - 1) // (workers * 4)))
         for a in range(0, n, c):
             jobs.append((modname, engine, seeds[a:a + c], tier))
